@@ -12,8 +12,9 @@ THEOREMS = ["C09_size_le_global", "C09_tokenbucket_le_global", "C09_schema_updat
 # VERIF_C09_MODEL=unrepaired / noreclamp compares the same cases with the model of the tree before
 # C09_clamp.diff / before C09_reclamp_on_schema_update.diff (correspondence only)
 ALT_MODEL = os.environ.get("VERIF_C09_MODEL", "")
-UNREPAIRED = ALT_MODEL in ("unrepaired", "noreclamp")
-EVAL = {"unrepaired": "C09_Check.eval_unrepaired", "noreclamp": "C09_Check.eval_noreclamp"}.get(ALT_MODEL, "C09_Check.eval")
+UNREPAIRED = ALT_MODEL in ("unrepaired", "noreclamp", "notypestop")
+EVAL = {"unrepaired": "C09_Check.eval_unrepaired", "noreclamp": "C09_Check.eval_noreclamp",
+        "notypestop": "C09_Check.eval_notypestop"}.get(ALT_MODEL, "C09_Check.eval")
 COQ_SHARD = 24
 CLAUSES = ["agree"] if UNREPAIRED else ["agree", "bound", "fallback", "inforce", "failing", "recovery", "nopanic"]
 RULE = ("distinct (schema, mode, clientset, event list) histories in which the remote limiter was selected at least "
@@ -75,7 +76,19 @@ def hb(ok):
 
 
 def el(s):
-    return {"op": "elapse", "sec": s}
+    """elapse s seconds (a float is fine: 4.999)"""
+    return {"op": "elapse", "ms": int(round(s * 1000))}
+
+
+def leader(tag="b"):
+    return {"op": "leader", "s": tag}
+
+
+def q_both(m, q, b, s="globalAllocate"):
+    return {"op": "quota", "d": "both", "a": m, "q": q, "b": b, "s": s}
+
+
+DEL = {"op": "delete"}
 
 
 def ok(accept, limit, rt):
@@ -98,8 +111,23 @@ def st(s):
     return {"op": "strategy", "s": s}
 
 
-def sch(l1, l2, g1, g2):
-    return {"op": "schema", "nl1": l1, "nl2": l2, "ng1": g1, "ng2": g2}
+def sch(l1, l2, g1, g2, kind=None, strat=None):
+    """schema update; kind / strategy None = unchanged (filled in by fix_schema_ops)"""
+    return {"op": "schema", "nk": kind, "ns": strat, "nl1": l1, "nl2": l2, "ng1": g1, "ng2": g2}
+
+
+def fix_schema_ops(case):
+    """fill in the type / strategy of schema updates that keep them"""
+    kind, strat = case["kind"], case["strat"]
+    for o in case["ops"]:
+        if o["op"] == "strategy":
+            strat = o["s"]
+        elif o["op"] == "schema":
+            o["nk"] = kind = o["nk"] or kind
+            if o["ns"] is None:
+                o["ns"] = strat
+            strat = o["ns"]
+    return case
 
 
 def corpus():
@@ -147,7 +175,29 @@ def corpus():
     cs.append(mi(5, 20, ops=[hb(True), q_mi(12), st("local"), sch(5, 0, 8, 0), st("globalAllocate"), q_mi(12), q_mi(12)]))
     cs.append(mi(3, 2 ** 31 - 1, strat="globalCount", ops=[hb(True), CFG, ok(True, 2 ** 30, 1), q_mi(2 ** 30, "globalCount")]))
     cs.append(tb(1, 1, 2 ** 31 - 1, 2 ** 31 - 1, ops=[hb(True), q_tb(2 ** 31 - 1, 2 ** 31 - 1), q_tb(I32MIN, I32MIN)]))
-    return cs
+    # the TYPE of the schema changes: the quota granted for the old type must not stay in force; answers of
+    # the old type keep arriving (ignored); answers with both members; delete and re-add of the name
+    cs.append(mi(5, 20, ops=[hb(True), q_mi(12), sch(1, 2, 3, 4, kind="tb"), q_mi(12), q_mi(12), q_both(12, 2, 9), q_tb(3, 3)]))
+    cs.append(tb(1, 2, 3, 4, ops=[hb(True), q_tb(3, 4), sch(5, 0, 20, 0, kind="mi"), q_tb(3, 4), q_both(12, 2, 9), q_both(99, -1, 0)]))
+    cs.append(mi(5, 20, strat="globalCount", ops=[hb(True), CFG, sch(1, 2, 3, 4, kind="tb"), err(9, 0, 1)]))   # nil deref in SetLimit
+    cs.append(mi(5, 20, strat="globalCount", ops=[hb(True), CFG, ok(True, 15, 1), sch(1, 2, 3, 4, kind="tb"), ok(True, 15, 2), CFG,
+                                                 err(0, 2, 3), sch(5, 0, 20, 0, kind="mi"), CFG]))
+    cs.append(mi(5, 20, ops=[hb(True), q_mi(12), sch(1, 2, 3, 4, kind="tb", strat="local"), sch(1, 2, 3, 4, kind="tb", strat="globalAllocate"),
+                             q_tb(2, 2)]))                                                   # type change while switching to local
+    cs.append(mi(5, 20, ops=[hb(True), q_mi(12), DEL, q_mi(12), ok(True, 1, 1), CFG, EN, sch(5, 0, 8, 0), q_mi(12), DEL, DEL,
+                             st("globalCount"), CFG]))
+    cs.append(mi(5, 20, strat="globalCount", ops=[hb(True), CFG, ok(True, 12, 1), DEL, sch(1, 2, 3, 4, kind="tb", strat="globalCount"), CFG,
+                                                 err(0, 1, 2)]))
+    cs.append(mi(5, 20, ops=[hb(True), q_mi(12), st("globalCount"), ok(True, 9, 1), CFG, st("globalAllocate"), q_mi(12), st("local"),
+                             q_mi(12), st("globalAllocate"), q_mi(12)]))                     # allocate <-> count <-> local
+    # readiness: the 5 s hysteresis of setLeaderStatus (just below, exactly, just above), flapping, leader change
+    cs.append(mi(5, 20, ops=[hb(True), q_mi(12), hb(False), el(4.999), hb(False), el(0.001), hb(False), hb(True), hb(False), el(5),
+                             hb(False)]))
+    cs.append(mi(5, 20, ops=[hb(True), q_mi(12), hb(False), el(5.001), hb(False), leader("b"), hb(False), el(4.999), hb(True),
+                             hb(False), el(4.999), hb(False), el(0.002), hb(False)]))
+    cs.append(mi(5, 20, ops=[q_mi(12), leader("b"), hb(False), el(3), hb(True), el(3), hb(False), el(3), hb(False), el(3), hb(False)]))
+    cs.append(mi(5, 20, ops=[hb(False), el(9), hb(False), q_mi(12), leader("c"), leader("b"), hb(False), el(9), leader("c")]))
+    return [fix_schema_ops(c) for c in cs]
 
 
 # ----------------------------------------------------------------------------- generators
@@ -247,83 +297,126 @@ def gen_limits(rng, c, last):
     return sch(lq, lb, gq, gb)
 
 
+def fresh_limits(rng, kind):
+    """valid limits for a schema of the given type (as in gen_static, small values)"""
+    if kind == "mi":
+        g = rng.choice([0, 1, 2, 10, 20, 49, 50, 60])
+        return min(rng.choice([0, 1, g // 2, g, max(g - 1, 0)]), g), 0, g, 0
+    gq = rng.choice([1, 2, 10, 100, 1000])
+    gb = rng.choice([0, 1, gq // 2, gq, gq, 2 * gq, 10 * gq])
+    lq = rng.choice([1, max(gq // 2, 1), gq])
+    return lq, min(rng.choice([lq, 2 * lq, 0, 1]), gb), gq, gb
+
+
+ELAPSE_MS = [1, 100, 1000, 2000, 4000, 4999, 5000, 5001, 6000]
+
+
 def gen_case(rng, tier):
+    """one history: a stateful walk that tracks the schema currently configured (type, strategy, limits,
+    present or deleted) so that answers, schema updates and stale answers of the previous type relate to it."""
     c = gen_static(rng, tier)
     flavour = rng.below(10)
     strat = "globalAllocate" if flavour < 4 else ("globalCount" if flavour < 8 else rng.choice(STRATS))
     c["strat"] = strat
-    ops = []
+    cur = dict(kind=c["kind"], l1=c["l1"], l2=c["l2"], g1=c["g1"], g2=c["g2"])
+    present = True
+    ops, last = [], None
     rtstate = [0]
-    n = rng.randint(3, 10) if tier == "quick" else rng.randint(4, 26)
+    n = rng.randint(3, 11) if tier == "quick" else rng.randint(4, 28)
+    updates = rng.below(3) > 0          # 2 histories in 3 see schema updates
     if c["cs"] == "nil":
-        for _ in range(rng.randint(0, 4)):
-            ops.append(st(rng.choice(STRATS)))
+        for _ in range(rng.randint(0, 5)):
+            k = rng.below(4)
+            if k < 2:
+                strat = rng.choice(STRATS)
+                ops.append(st(strat))
+            elif k == 2:
+                ops.append(DEL)
+            else:
+                kind = rng.choice(["mi", "tb"])
+                ops.append(sch(*fresh_limits(rng, kind), kind=kind, strat=strat))
         c["ops"] = ops
-        return c
+        return fix_schema_ops(c)
     if rng.below(10) < 8:
         ops.append(hb(True))
     if strat == "globalCount" and rng.below(10) < 8:
         ops.append(CFG)
     for _ in range(n):
         k = rng.below(100)
-        if strat == "globalCount":
-            if k < 45:
-                ops.append(gen_count(rng, c, rtstate))
-            elif k < 57:
-                ops.append(CFG)
-            elif k < 65:
-                ops.append(gen_quota(rng, c, strat))
-            elif k < 75:
-                ops.append(hb(rng.below(3) > 0))
-            elif k < 82:
-                ops.append(el(rng.choice([1, 2, 4, 5, 6])))
-            elif k < 92:
-                strat = rng.choice(STRATS)
-                ops.append(st(strat))
-            else:
-                ops.append(EN)
-        else:
-            if k < 45:
-                ops.append(gen_quota(rng, c, strat))
-            elif k < 52:
-                ops.append(gen_count(rng, c, rtstate))
-            elif k < 56:
-                ops.append(CFG)
-            elif k < 72:
-                ops.append(hb(rng.below(3) > 0))
-            elif k < 82:
-                ops.append(el(rng.choice([1, 2, 4, 5, 6])))
-            elif k < 92:
-                strat = rng.choice(STRATS)
-                ops.append(st(strat))
-            else:
-                ops.append(EN)
-    c["ops"] = add_schema_updates(rng, c, ops)
-    return c
-
-
-def add_schema_updates(rng, c, ops):
-    """weave limit changes into a history (2 cases in 3) and make the server repeat its last answer:
-    every quota is followed, with probability 1/3, by a verbatim repetition (the steady state of a
-    limiter server), and every schema update, with probability 2/3, by 1-3 repetitions of the last quota."""
-    cur = dict(c)
-    out, last = [], None
-    updates = rng.below(3) > 0
-    for o in ops:
-        out.append(o)
-        if o["op"] == "quota":
+        count_heavy = strat == "globalCount"
+        if k < (12 if count_heavy else 40):
+            o = gen_quota(rng, cur, strat)
+            if rng.below(12) == 0:
+                o = q_both(clip(vocab(rng, cur["l1"], cur["g1"])), clip(vocab(rng, cur["l1"], cur["g1"])),
+                           clip(vocab(rng, cur["l2"], cur["g2"])), o["s"])
+            ops.append(o)
             last = o
             if rng.below(3) == 0:
-                out.append(dict(o))
-        if updates and rng.below(6) == 0:
-            u = gen_limits(rng, cur, last)
-            out.append(u)
+                ops.append(dict(o))             # the server repeats its answer: the steady state
+        elif k < (50 if count_heavy else 46):
+            ops.append(gen_count(rng, cur, rtstate))
+        elif k < (60 if count_heavy else 50):
+            ops.append(CFG)
+        elif k < 68:
+            j = rng.below(10)
+            if j < 4:
+                ops.append(hb(rng.below(3) > 0))
+            elif j < 8:                         # a failing server: heartbeats around the 5 s hysteresis boundary
+                ops.extend([hb(False), {"op": "elapse", "ms": rng.choice(ELAPSE_MS)}, hb(False)])
+                if rng.below(2) == 0:
+                    ops.extend([{"op": "elapse", "ms": rng.choice(ELAPSE_MS)}, hb(rng.below(2) == 0)])
+            else:
+                ops.append(leader(rng.choice(["b", "c"])))
+        elif k < 74:
+            ops.append({"op": "elapse", "ms": rng.choice(ELAPSE_MS)})
+        elif k < 80:
+            strat = rng.choice(STRATS)
+            ops.append(st(strat))
+            present = True
+        elif k < 84:
+            ops.append(EN)
+        elif updates and k < 92:                # the limits change (same type)
+            u = gen_limits(rng, cur, last if last and last["d"] in ("mi", "tb") else None)
+            if rng.below(4) == 0:
+                strat = rng.choice(STRATS[:3])
+                u["ns"] = strat
+            ops.append(u)
+            present = True
             cur.update(l1=u["nl1"], l2=u["nl2"], g1=u["ng1"], g2=u["ng2"])
             if last is not None and rng.below(3) > 0:
-                out.extend(dict(last) for _ in range(rng.randint(1, 3)))
+                ops.extend(dict(last) for _ in range(rng.randint(1, 3)))
             elif rng.below(2) == 0:
-                out.append(CFG)
-    return out
+                ops.append(CFG)
+        elif updates and k < 97:                # the type changes; answers of the old type keep arriving
+            kind = "tb" if cur["kind"] == "mi" else "mi"
+            if rng.below(3) == 0:
+                strat = rng.choice(STRATS[:3])
+            l1, l2, g1, g2 = fresh_limits(rng, kind)
+            ops.append(sch(l1, l2, g1, g2, kind=kind, strat=strat))
+            present = True
+            cur.update(kind=kind, l1=l1, l2=l2, g1=g1, g2=g2)
+            if last is not None and rng.below(3) > 0:
+                ops.extend(dict(last) for _ in range(rng.randint(1, 2)))      # stale answers of the old type
+            j = rng.below(4)
+            if j == 0:
+                ops.append(CFG)
+            elif j == 1:
+                ops.append(gen_count(rng, cur, rtstate))
+        elif updates:                           # the schema name is deleted, and (mostly) added again later
+            ops.append(DEL)
+            present = False
+            if last is not None and rng.below(2) == 0:
+                ops.append(dict(last))
+            if rng.below(3) > 0:
+                kind = rng.choice(["mi", "tb"])
+                l1, l2, g1, g2 = fresh_limits(rng, kind)
+                ops.append(sch(l1, l2, g1, g2, kind=kind, strat=strat))
+                present = True
+                cur.update(kind=kind, l1=l1, l2=l2, g1=g1, g2=g2)
+        else:
+            ops.append(hb(rng.below(3) > 0))
+    c["ops"] = ops
+    return fix_schema_ops(c)
 
 
 def generate(rng, tier, scale=1):
@@ -334,13 +427,19 @@ def generate(rng, tier, scale=1):
 # ----------------------------------------------------------------------------- Coq printing
 def coq_item(d, a, b, s):
     det = "DNone" if d == "none" else ("(DMI %s)" % cZ(a) if d == "mi" else "(DTB %s %s)" % (cZ(a), cZ(b)))
-    return "(Build_item %s %s)" % (det, sc(s))     # constructor form: record syntax elaborates 5x slower
+    return "(Build_item %s %s)" % (det, sc(s))
+
+
+def coq_quota(o):
+    if o["d"] == "both":
+        return "(Build_item (DBoth %s %s %s) %s)" % (cZ(o["a"]), cZ(o["q"]), cZ(o["b"]), sc(o["s"]))
+    return coq_item(o["d"], o["a"], o["b"], o["s"])     # constructor form: record syntax elaborates 5x slower
 
 
 def coq_ev(o):
     k = o["op"]
     if k == "quota":
-        return "(EQuota %s)" % coq_item(o["d"], o["a"], o["b"], o["s"])
+        return "(EQuota %s)" % coq_quota(o)
     if k == "cfgsync":
         return "ECfgSync"
     if k == "enable":
@@ -356,11 +455,16 @@ def coq_ev(o):
     if k == "hb":
         return "(EHb %s)" % cbool(o["ready"])
     if k == "elapse":
-        return "(EElapse %s)" % cZ(o["sec"])
+        return "(EElapse %s)" % cZ(o["ms"])
+    if k == "leader":
+        return "ELeader"
+    if k == "delete":
+        return "EDelete"
     if k == "strategy":
         return "(EStrategy %s)" % sc(o["s"])
     if k == "schema":
-        return "(ESchema %s %s %s %s)" % (cZ(o["nl1"]), cZ(o["nl2"]), cZ(o["ng1"]), cZ(o["ng2"]))
+        return "(ESchema %s %s %s %s %s %s)" % ("KMI" if o["nk"] == "mi" else "KTB", sc(o["ns"]), cZ(o["nl1"]), cZ(o["nl2"]),
+                                                cZ(o["ng1"]), cZ(o["ng2"]))
     raise ValueError(k)
 
 
